@@ -10,6 +10,13 @@ driven, under a generated program of write groups (committed, aborted and
 redone), identical re-additions, re-opens and index repacks, into every
 available backend; after every step every query of the GitShaMap interface is
 asked of every backend and compared with the dict backend.
+
+Two further observations on the persistent backends: (1) a backend that was only closed and re-opened must give, for
+every query, the answer it gave at the checkpoint just before (nothing was written in between); (2) where the index
+store answers lookup_git_sha with a single entry although the dict backend holds several (its one-record-per-sha
+format, a known finding), that entry must be the FIRST registration of the sha (the one the dict backend lists first,
+the only one the store ever writes) - a later registration shadowing it, e.g. one made in a later write group, is a
+different deviation and gets its own key.
 """
 import copy
 import os
@@ -18,7 +25,8 @@ ID = "C38"
 LEVEL = "exploration"
 TECHNIQUE = ("differential monitor: identical recorded updater sequences (from the real BazaarObjectStore) into "
              "Dict / Sqlite(:memory:, file) / Index backends, every GitShaMap query compared with the dict backend, "
-             "before and after close+re-open")
+             "before and after close+re-open; every persistent backend's answers compared with its own answers just before "
+             "the close; the index store's single entry per sha compared with the first registration")
 LEVEL_TEXT = ("generated histories (quick <= 8, thorough <= 24 revisions: duplicate file contents, identical "
               "directories, reverts, pointless commits, merges taking the other side's text, renames, removals) x "
               "programs of write groups / aborts / re-adds / re-opens / repacks; every known key plus unknown keys "
@@ -31,7 +39,9 @@ BUDGET_S = {"quick": 45, "thorough": 700}
 MIN_EVALS = {"quick": 600, "thorough": 10000}
 FLOORS = {"q_lookup_git_sha": 5000, "q_lookup_blob_id": 2000, "q_lookup_tree_id": 1000, "q_lookup_commit": 1000,
           "q_revids": 300, "q_sha1s": 300, "q_missing_revisions": 300, "reopen_checked": 60,
-          "abort_interval_checked": 20, "backend:sqlite-file": 100, "backend:sqlite-memory": 100, "backend:index": 100}
+          "abort_interval_checked": 20, "index_multi_key_sha_checked": 200,
+          "index_sha_reregistered_in_later_group_checked": 100, "reopen_same_answer_checked": 3000,
+          "backend:sqlite-file": 100, "backend:sqlite-memory": 100, "backend:index": 100}
 EXHAUSTIVE = {"quick": False, "thorough": False}
 ASSUMPTIONS = [
     "the dict backend is the reference (the property names no other)",
@@ -41,6 +51,8 @@ ASSUMPTIONS = [
     "does not store tree ids",
     "between an aborted write group and its redo a backend may answer like before the group or like after it "
     "(abort is a no-op in the dict and sqlite backends); full agreement is required again after the redo",
+    "where the index store returns one of several registrations of a sha, the first registration (in updater call order, "
+    "the entry the dict backend yields first) is the expected one; any other is reported under its own key",
     "a re-added revision is re-added with identical objects (what re-running the conversion produces)",
     "file ids and revision ids contain no whitespace",
 ]
@@ -312,7 +324,9 @@ class Known:
         self.tree_keys = []
         self.revids = []
         self.order = {}  # ("tree"|"blob", key) -> index of the latest insertion
-        self.by_sha = {}  # sha -> [(type, key)]
+        self.by_sha = {}  # sha -> [(type, key)] in order of first registration
+        self.groups = {}  # sha -> set of write-group numbers in which a NEW (type, key) was registered for it
+        self.group = 0  # number of the write group being fed (set by run_program)
         self.n = 0
 
     def add_entry(self, entry):
@@ -329,7 +343,9 @@ class Known:
             if tname == "commit":
                 if rev.revision_id not in self.revids:
                     self.revids.append(rev.revision_id)
-                self.by_sha[sha].append(("commit", rev.revision_id))
+                if ("commit", rev.revision_id) not in self.by_sha[sha]:
+                    self.by_sha[sha].append(("commit", rev.revision_id))
+                    self.groups.setdefault(sha, set()).add(self.group)
             else:
                 key = tuple(kd)
                 lst = self.blob_keys if tname == "blob" else self.tree_keys
@@ -338,6 +354,7 @@ class Known:
                 self.order[(tname, key)] = self.n
                 if (tname, key) not in self.by_sha[sha]:
                     self.by_sha[sha].append((tname, key))
+                    self.groups.setdefault(sha, set()).add(self.group)
 
 
 def norm_entries(it):
@@ -409,6 +426,14 @@ def classify(backend, q, want, got, known, lo=None):
         lostset = w - g
         types = sorted({t for t, _d in lostset})
         if b == "index" and len(g) == 1:
+            # The index store keeps ONE record per sha: the first registration ever made (the entry the dict backend
+            # lists first).  Any other single answer (a later registration shadowing the first one) is a different
+            # deviation from the dict backend than the known one-record-per-sha format limit.
+            first = (known.by_sha.get(q[1]) or [None])[0]
+            (t, d), = g
+            mine = (t, d[0]) if t == "commit" else (t, tuple(d))
+            if first is not None and mine != first:
+                return "lookup_git_sha:index:single-entry-is-not-the-first-registration"
             return "lookup_git_sha:index:single-entry-per-sha"
         if b == "sqlite" and types == ["tree"]:
             surv = [known.order.get(("tree", d), 0) for t, d in g if t == "tree"]
@@ -474,6 +499,11 @@ def compare(ctx, backend, ref_ans, ans, known, where, prog_sig, hi_ans=None):
     for q, want in ref_ans.items():
         ctx.count("q_" + q[0])
         got = ans.get(q)
+        if backend.name == "index" and q[0] == "lookup_git_sha" and len(known.by_sha.get(q[1], ())) > 1:
+            # which of several registrations the one-record-per-sha store answers with is judged (classify)
+            ctx.count("index_multi_key_sha_checked")
+            if len(known.groups.get(q[1], ())) > 1:
+                ctx.count("index_sha_reregistered_in_later_group_checked")
         if hi_ans is not None:
             ctx.count("abort_interval_checked")
             if between(q, want, hi_ans[q], got):
@@ -583,7 +613,27 @@ def case(ctx):
                 pass
 
 
-def checkpoint(ctx, ref, backends, known, all_revids, where, prog_sig, step_no, full=True, hi=None):
+def reopen_stable(ctx, backend, before, after, where, step_no):
+    """A persistent backend that was only closed and re-opened answers every query as it did just before."""
+    bad = {}
+    for q, was in before.items():
+        if q not in after:
+            continue
+        ctx.count("reopen_same_answer_checked")
+        now = after[q]
+        if now != was:
+            bad.setdefault("%s:%s:answer-changes-on-reopen" % (q[0], backend.name.split("-")[0]), []).append((q, was, now))
+    for key, items in bad.items():
+        q, was, now = items[0]
+        for _ in items:
+            ctx.fail(key, "%s at %s: %s answered %s before close and %s after re-open (nothing was written in between)"
+                     % (backend.name, where, jb(list(q)), _show(was), _show(now)),
+                     {"backend": backend.name, "where": where, "step": step_no, "query": jb(list(q)), "before": _show(was),
+                      "after": _show(now), "n_queries_with_this_key": len(items)})
+    return not bad
+
+
+def checkpoint(ctx, ref, backends, known, all_revids, where, prog_sig, step_no, full=True, hi=None, prev=None, reopened=()):
     rng = ctx.rng
     mq = []
     if full:
@@ -597,6 +647,10 @@ def checkpoint(ctx, ref, backends, known, all_revids, where, prog_sig, step_no, 
     for b in backends:
         ans = answers(ctx, b.idmap, known, mq, full)
         ok = compare(ctx, b, ref_ans, ans, known, where, {"step": step_no, "where": where}, hi_ans)
+        if prev is not None:
+            if b.name in reopened and b.name in prev:
+                ok = reopen_stable(ctx, b, prev[b.name], ans, where, step_no) and ok
+            prev[b.name] = ans
         ctx.count("backend:" + b.name)
         ctx.hist("checkpoint:%s" % where.split(":")[0])
         ctx.note((prog_sig, step_no, where, b.name), nontrivial=len(known.revids) >= 2 or multi,
@@ -606,7 +660,9 @@ def checkpoint(ctx, ref, backends, known, all_revids, where, prog_sig, step_no, 
 
 
 def run_program(ctx, program, log, ref, backends, known, all_revids, prog_sig):
+    prev = {}  # backend name -> its answers at the latest checkpoint
     for step_no, st in enumerate(program):
+        known.group = step_no
         if st["op"] == "group":
             entries = [log[i] for i in st["revs"]]
             if st["abort_first"]:
@@ -615,6 +671,7 @@ def run_program(ctx, program, log, ref, backends, known, all_revids, prog_sig):
                 hi.cache.idmap._by_fileid = copy.deepcopy(ref.idmap._by_fileid)
                 hi.cache.idmap._by_revid = copy.deepcopy(ref.idmap._by_revid)
                 known_hi = copy.deepcopy(known)
+                prev.clear()
                 for e in entries:
                     feed(hi, e)
                     known_hi.add_entry(e)
@@ -633,18 +690,21 @@ def run_program(ctx, program, log, ref, backends, known, all_revids, prog_sig):
                 known.add_entry(e)
                 if st["midquery"] and j < len(entries) - 1:
                     ctx.count("midgroup_checked")
-                    checkpoint(ctx, ref, backends, known, all_revids, "mid-group", prog_sig, step_no, full=False)
+                    checkpoint(ctx, ref, backends, known, all_revids, "mid-group", prog_sig, step_no, full=False, prev=prev)
             for b in [ref] + backends:
                 b.idmap.commit_write_group()
             ctx.hist("program:group-committed")
-            checkpoint(ctx, ref, backends, known, all_revids, "after-commit", prog_sig, step_no)
+            checkpoint(ctx, ref, backends, known, all_revids, "after-commit", prog_sig, step_no, prev=prev)
         elif st["op"] == "reopen":
+            reopened = []
             for b in backends:
                 if b.persistent and st["which"] in (b.name, "both"):
                     b.reopen()
+                    reopened.append(b.name)
                     ctx.count("reopen_checked")
             ctx.hist("program:reopen")
-            checkpoint(ctx, ref, backends, known, all_revids, "reopen:%s" % st["which"], prog_sig, step_no)
+            checkpoint(ctx, ref, backends, known, all_revids, "reopen:%s" % st["which"], prog_sig, step_no, prev=prev,
+                       reopened=reopened)
         elif st["op"] == "repack":
             for b in backends:
                 if b.name == "index":
@@ -658,4 +718,4 @@ def run_program(ctx, program, log, ref, backends, known, all_revids, prog_sig):
                         if b.idmap._builder is not None:
                             b.idmap.abort_write_group()
             ctx.hist("program:repack")
-            checkpoint(ctx, ref, backends, known, all_revids, "repack", prog_sig, step_no)
+            checkpoint(ctx, ref, backends, known, all_revids, "repack", prog_sig, step_no, prev=prev)
